@@ -501,6 +501,10 @@ fn exec17(s: &Spec17) -> String {
                     let by = gen::to_le_bytes(&vec![7i32; 64 * channels], *first_bytes);
                     fb.fill_le_bytes(&by, *first_bytes).unwrap();
                 }
+                // the buffer is used once (encoded) in its valid state: whatever the buffer or the
+                // encoder remember about it must not outlive the next fill
+                let si0 = StreamInfo::new(44100, *channels, 16).unwrap();
+                let _ = flacenc::encode_fixed_size_frame(&v, &fb, 0, &si0);
                 // then a fill holding one out-of-range sample through the other (or the same) one
                 let mut d = vec![1i32; 48 * channels];
                 d[(20 * channels) + channels - 1] = *value;
